@@ -40,3 +40,27 @@ Section Users.
                             | Some x => if value_eqb x old then write acc s new else acc
                             | None => acc end) slots u.
 End Users.
+
+(* Terminators with branch targets: Succs() caches the successor list in the Successors field on the first
+   call (`if term.Successors == nil`), a write through an operand slot changes the target cell only. *)
+Section Succs.
+  Variable block : Type.
+  Record term := { t_targets : list block; t_cache : option (list block) }.
+  (* Succs(): the cached list if there is one, else the targets, which are then cached *)
+  Definition succs (t : term) : list block * term :=
+    match t_cache t with
+    | Some c => (c, t)
+    | None => (t_targets t, {| t_targets := t_targets t; t_cache := Some (t_targets t) |})
+    end.
+  (* *slot = b for the slot of target i *)
+  Definition write_target (t : term) (i : nat) (b : block) : term :=
+    {| t_targets := set_nth block i b (t_targets t); t_cache := t_cache t |}.
+  Inductive term_op := TSuccs | TWrite (i : nat) (b : block).
+  (* a history of queries and writes; the outputs of the queries, oldest first *)
+  Fixpoint trun (h : list term_op) (t : term) : list (list block) * term :=
+    match h with
+    | [] => ([], t)
+    | TSuccs :: r => let '(o, t1) := succs t in let '(os, t2) := trun r t1 in (o :: os, t2)
+    | TWrite i b :: r => trun r (write_target t i b)
+    end.
+End Succs.
